@@ -39,7 +39,9 @@ Vec2(tab, a, b) ==
     ELSE [l |-> [k \in 1..Len(b.l) |-> Vec2(tab, a, b.l[k])]]
 
 RECURSIVE HasMissing(_)
-HasMissing(v) == IF "missing" \in DOMAIN v THEN TRUE
+(* a leaf the element could not compute, or whose value is outside the number / string / list types
+   (complex infinity from 0 ** -4, a float, nan): such a case is not evaluated *)
+HasMissing(v) == IF "missing" \in DOMAIN v \/ "x" \in DOMAIN v \/ "y" \in DOMAIN v THEN TRUE
                  ELSE IF IsList(v) THEN \E k \in 1..Len(v.l) : HasMissing(v.l[k]) ELSE FALSE
 
 (* shapes: a leaf is [leaf |-> TRUE], a list [s |-> shapes of its items] *)
